@@ -1,4 +1,7 @@
 pub mod c01;
+pub mod c02;
+pub mod c05;
+pub mod c14;
 
 use std::time::Instant;
 
@@ -8,6 +11,12 @@ pub fn run(id: &str, replay: Option<&str>) -> i32 {
     match (id, replay) {
         ("C01", None) => c01::run(started),
         ("C01", Some(p)) => c01::replay(p),
+        ("C02", None) => c02::run(started),
+        ("C02", Some(p)) => c02::replay(p, c02::Which::C02),
+        ("C14", None) => c14::run(started),
+        ("C14", Some(p)) => c14::replay(p),
+        ("C05", None) => c05::run(started),
+        ("C05", Some(p)) => c02::replay(p, c02::Which::C05),
         _ => {
             eprintln!("machinery: unknown check {id}");
             2
